@@ -35,6 +35,7 @@ let reason (c : int) : string =
     | 35 -> "cannot serialise head packet"
     | 40 -> "snapshot (n, s, base, top) differs from the model's sender state"
     | 41 -> "snapshot recvSeq differs from the model's receiver state"
+    | 42 -> "in-sequence DATA packet neither acknowledged nor delivered although fewer than n packets were waiting for Recv"
     | _ -> "?" in
   if c >= 1000 then "PANIC in generated code: " ^ s else s
 
@@ -50,9 +51,33 @@ let run_file (file : string) : int * int =
      follows is skipped; with `keep` the retained copy stays in the channel and nothing else happens. *)
   let hs_done = [| false; false |] and swallow = [| false; false |] and saw_hs = ref false in
   let total_events = ref 0 in
+  (* the whole file, for the one place that has to look ahead (was an in-sequence DATA packet acknowledged?) *)
+  let all =
+    let acc = ref [] in
+    (try while true do acc := input_line ic :: !acc done with End_of_file -> ());
+    Array.of_list (List.rev !acc) in
+  let pos = ref 0 in
+  (* what the receive loop of side x does next after line i: `Ack seq, `Other (it read another packet or sent a
+     NACK without having acknowledged), `Nothing (the scenario ends first) *)
+  let next_of_recv_loop (i : int) (x : string) =
+    let r = ref `Nothing and j = ref (i + 1) in
+    while !r = `Nothing && !j < Array.length all do
+      (match split_ws all.(!j) with
+       | ("END" | "BEGIN") :: _ -> j := Array.length all
+       | ["TX"; y; h] when y = x && String.length h >= 4 && String.sub h 0 2 = "03" ->
+         r := `Ack (int_of_string ("0x" ^ String.sub h 2 2))
+       | ["TX"; y; h] when y = x && String.length h >= 2 && String.sub h 0 2 = "04" -> r := `Other
+       | ["RX"; y; _] when y = x -> r := `Other
+       | _ -> ());
+      incr j
+    done;
+    !r in
   (try
      while true do
-       let line = input_line ic in
+       if !pos >= Array.length all then raise End_of_file;
+       let line = all.(!pos) in
+       let here = !pos in
+       incr pos;
        let toks = split_ws line in
        (match toks with
         | "BEGIN" :: i :: rest ->
@@ -91,7 +116,18 @@ let run_file (file : string) : int * int =
                | ["CH"; x; "deliver"] -> Some (MCh (side_of x, Deliver))
                | ["CH"; x; "keep"] -> Some (MCh (side_of x, DeliverKeep))
                | ["CH"; x; "drop"] -> Some (MCh (side_of x, Drop))
-               | ["RX"; x; h] -> Some (MRx (side_of x, bytes_of_hex h))
+               | ["RX"; x; h] ->
+                 (* an in-sequence, non-ping DATA packet that the receive loop does not acknowledge before it goes
+                    on to the next packet has been refused for lack of room (the model checks that there was none) *)
+                 let b = bytes_of_hex h in
+                 let d = if x = "0" then s.m_dB else s.m_dA in
+                 let staged_data = (match (if x = "0" then s.m_stA else s.m_stB) with Some (TgData, _) -> true | _ -> false) in
+                 let in_seq_data = staged_data && (match b with
+                     | t :: sq :: _ :: ping :: _ -> int_of_z t = 2 && int_of_z sq = int_of_z d.d_recv && int_of_z ping = 0
+                     | _ -> false) in
+                 if in_seq_data && next_of_recv_loop here x = `Other
+                 then Some (MRxRefused (side_of x, b))
+                 else Some (MRx (side_of x, b))
                | ["SNAP"; x; n; s; b; t; r] ->
                  Some (MSnap (side_of x, z_of_int (int_of_string n), z_of_int (int_of_string s),
                               z_of_int (int_of_string b), z_of_int (int_of_string t), z_of_int (int_of_string r)))
